@@ -470,7 +470,7 @@ pub fn run(e: &Engine) {
     e.campaign(
         "random-batches",
         "1-5 steps of longer random batches (3 tasks x 4 properties incl. status, arbitrary recorded old values / old tasks, undo points) and syncs, on both storages; same oracles",
-        e.tier.pick(3000, 200_000),
+        e.tier.pick(10_000, 400_000),
         || strategy(1),
         render,
         check_case,
